@@ -28,7 +28,8 @@ fn unit_coords(spec: &Spec, v: &V, out: &mut Vec<f64>) {
         (Spec::Rv { bounds, .. }, V::Rv(x)) => {
             let b = bounds.as_ref().expect("bounded");
             for (c, (l, u)) in x.iter().zip(b) {
-                out.push((c - l) / (u - l));
+                // (halved first: the width of a representable box may overflow)
+                out.push((c / 2.0 - l / 2.0) / (u / 2.0 - l / 2.0));
             }
         }
         (Spec::So2 { bounds, .. }, V::So2(a)) => {
@@ -154,6 +155,13 @@ pub fn generic_stream_audit_n<K: Kit>(spec: &Spec, seeds: u64, per: usize) -> Re
     Ok(all.len() as u64)
 }
 
+fn overflowing_width(spec: &Spec) -> bool {
+    match spec {
+        Spec::Rv { bounds: Some(b), .. } => b.iter().any(|(l, u)| l.is_finite() && u.is_finite() && !(u - l).is_finite()),
+        _ => false,
+    }
+}
+
 /// Product-law check: every tuple of the K^d mid-point lattice; B bins per coordinate, B | K.
 fn product_check<K: Kit>(spec: &Spec, d: usize, k: usize, b: usize, rep: &mut Report) {
     product_check_sp::<K>(spec, K::build(spec), d, k, b, rep)
@@ -183,6 +191,11 @@ fn product_check_sp<K: Kit>(spec: &Spec, sp: K::SP, d: usize, k: usize, b: usize
         rng.cap = 64;
         let s = match guarded(|| sp.sample_uniform(&mut rng)) {
             Ok(Ok(s)) => s,
+            Ok(Err(oxmpl::base::error::StateSamplingError::UnboundedDimension { .. })) if overflowing_width(spec) => {
+                // the documented refusal for a box whose width is not representable: nothing to judge
+                rep.count("overflowing_width_refused", 1);
+                return;
+            }
             _ => {
                 viol(rep, &format!("{}|sampler-failed", K::NAME), "sample_uniform failed or unwound on a lattice tuple".into(), json!({"space": spec.json(), "tuple_index": t}));
                 return;
@@ -569,6 +582,10 @@ pub fn run(tier: &'static str) -> i32 {
         (Spec::Rv { dim: 2, bounds: Some(vec![(0.0, 4.0), (-1.0, 1.0)]), frac: None }, 2, if thorough { 512 } else { 256 }, 16),
         (Spec::Rv { dim: 3, bounds: Some(vec![(0.0, 4.0), (-1.0, 1.0), (1e-3, 2e-3)]), frac: None }, 3, 64, 8),
         (Spec::Rv { dim: 2, bounds: Some(vec![(-1e300, 1e300), (-1e-300, 1e-300)]), frac: None }, 2, 64, 8),
+        // finite bounds whose width overflows: refused today (documented error); if they are ever
+        // sampled, the law is the uniform one like anywhere else
+        (Spec::Rv { dim: 1, bounds: Some(vec![(-1.0e308, 1.7e308)]), frac: None }, 1, 4096, 64),
+        (Spec::Rv { dim: 2, bounds: Some(vec![(0.0, 1.0), (-1.7e308, 0.5e308)]), frac: None }, 2, 64, 8),
         (Spec::So2 { bounds: None, frac: None }, 1, 4096, 64),
         (Spec::So2 { bounds: Some((-1.0, 2.5)), frac: None }, 1, 4096, 64),
         (Spec::So2 { bounds: Some((0.5, PI)), frac: None }, 1, 4096, 64),
@@ -632,6 +649,9 @@ pub fn run(tier: &'static str) -> i32 {
     // a mid-width cone with a million draws: the Haar law and the "uniform rotation vector" law
     // (theta/a)^3 differ by only 0.0093 a^2 in CDF there
     so3_stream_audit(([0.0, 0.0, 0.0, 1.0], 0.95), if thorough { 1024 } else { 256 }, 4000, &mut rep);
+    // narrow cones (a dedicated small-angle sampler would live here): few draws, each costs thousands of attempts
+    so3_stream_audit(([0.0, 0.0, 0.0, 1.0], 0.24), seeds, if thorough { 600 } else { 150 }, &mut rep);
+    so3_stream_audit((rx, 0.15), seeds, if thorough { 300 } else { 80 }, &mut rep);
     for dim in [10usize, 12] {
         rv_stream_audit(dim, seeds, if thorough { 2000 } else { 800 }, &mut rep);
     }
